@@ -55,7 +55,13 @@ type Upstream struct {
 	Respond func(w http.ResponseWriter, r *http.Request, c *Captured)
 	BytesIn int64
 	probes  int64
+	// probeMode: how the gateway's health probe is answered - "" (200 ok), "500", "404", "hang" (no answer until the
+	// prober gives up), "slow-body" (200 and headers at once, the body never completes)
+	probeMode atomic.Value
 }
+
+// SetProbeMode decides how health probes are answered from now on.
+func (u *Upstream) SetProbeMode(m string) { u.probeMode.Store(m) }
 
 // ProbeCount is the monotonic number of gateway health probes received (never cleared).
 func (u *Upstream) ProbeCount() int64 { return atomic.LoadInt64(&u.probes) }
@@ -69,6 +75,34 @@ func NewUpstream(name string) *Upstream {
 			u.mu.Lock()
 			u.reqs = append(u.reqs, &Captured{Method: "PROBE", Path: "/healthz"})
 			u.mu.Unlock()
+			mode, _ := u.probeMode.Load().(string)
+			switch mode {
+			case "500":
+				w.WriteHeader(500)
+				_, _ = w.Write([]byte("etcd unreachable"))
+				return
+			case "404":
+				w.WriteHeader(404)
+				return
+			case "hang":
+				select {
+				case <-r.Context().Done():
+				case <-time.After(60 * time.Second):
+				}
+				return
+			case "slow-body":
+				w.Header().Set("Content-Length", "1000")
+				w.WriteHeader(200)
+				_, _ = w.Write([]byte("o"))
+				if f, ok := w.(http.Flusher); ok {
+					f.Flush()
+				}
+				select {
+				case <-r.Context().Done():
+				case <-time.After(60 * time.Second):
+				}
+				return
+			}
 			w.WriteHeader(200)
 			_, _ = w.Write([]byte("ok"))
 			return
